@@ -62,8 +62,8 @@ def run(case, rec):
             hit_clone_group = True
             rec.cls(f"clone-group-op={op[0]}")
         problems, w = structural(eng.tree)
-        if problems:
-            rec.cls("abandoned:tree-not-well-formed(C01)")
+        if w.problems:
+            rec.cls("abandoned:tree-not-walkable(C01)")
             return
         for cat, bucket, detail in out.events:
             if cat == "effect" and bucket.endswith(":data_id"):
@@ -73,6 +73,10 @@ def run(case, rec):
         bad = index_exact(eng.tree, w, extra_ids=sorted(ids_ever, key=repr), extra_data=list(fl.keep), calc=calc)
         if bad:
             rec.fail(f"{bad[0][0]}:after:{out.plan.route.split(':')[0]}", {"op": op, "route": out.plan.route, "detail": bad[0][1]})
+            return
+        if problems:
+            # lookups are exact although the tree is not well-formed in another respect: C01's subject
+            rec.cls("abandoned:tree-not-well-formed(C01)")
             return
     rec.nt(hit_clone_group)
 
